@@ -200,6 +200,10 @@ theorem C08_fresh_deferred (s : St) (o : Nat) :
   · simp only [TxV.TorState.step]
     split <;> exact ⟨rfl, rfl⟩
 
+/-- **a replacement consensus is no transition of any circuit or stream**: nobody is notified, nothing completes, and the hops of
+every path stay what they were (a hop is its fingerprint; the relay table itself is C16's) -/
+theorem C08_newconsensus_silent (s : St) : step s .newConsensus = (s, []) := rfl
+
 /-! ## the theorems say something -/
 
 /-- listeners 1 and 2 on every circuit; 1 quits inside `closed`; a wait and two close requests -/
